@@ -41,7 +41,7 @@ def sample(ptype, ctr, ver, hexy=False):
     if ptype in a2ldoc.INT_BITS:
         return hex(0x100 + n) if hexy and ptype not in ("int",) else str(100 + n)
     if ptype in ("float", "double"):
-        return f"{n}.5"
+        return f"{n}.1"        # not exactly representable in binary: f32 and f64 store different values
     items = [i for i in ENUMS[ptype] if in_version(i, ver)]
     return (items or ENUMS[ptype])[n % len(items or ENUMS[ptype])]["item"]
 
